@@ -72,7 +72,7 @@ func (vc *VC) exec(b *ssa.BasicBlock, in ssa.Instruction, st *State, reach strin
 		for _, r := range x.Results {
 			res = append(res, vc.val(r))
 		}
-		vc.rets = append(vc.rets, retEdge{reach, st, res})
+		vc.rets = append(vc.rets, retEdge{reach, st, res, x.Pos()})
 	case *ssa.Panic:
 		vc.safety("panic", reach, "false", x.Pos())
 	case *ssa.BinOp:
@@ -525,7 +525,19 @@ func (vc *VC) globalInit(g *ssa.Global, st *State) SV {
 	}
 	v := mkSV(elem, ls)
 	vc.assumeType("true", elem, v, vc.st0)
-	vc.eng.note("package-level variable " + pkgKey(g.Pkg.Pkg) + "." + g.Name() + " read as an arbitrary but fixed value")
+	gk := pkgKey(g.Pkg.Pkg) + "." + g.Name()
+	if facts := vc.eng.CS.GlobalFacts[gk]; len(facts) > 0 && vc.eng.globalIsConstant(g) {
+		env := vc.newEnv(vc.st0, vc.st0, nil)
+		env.local = false
+		env.pkg = pkgKey(g.Pkg.Pkg)
+		env.vars[g.Name()] = v
+		for _, f := range facts {
+			vc.assume("true", vc.evalBool(env, f))
+		}
+		vc.eng.note("package-level variable " + gk + ": assumed to hold its initial value (no store outside init was found) as described by its globalfact")
+	} else {
+		vc.eng.note("package-level variable " + gk + " read as an arbitrary but fixed value")
+	}
 	return v
 }
 
@@ -699,14 +711,19 @@ func (vc *VC) mkFn(t types.Type) (string, []string, []string) {
 	sorts := sortsOf(t)
 	names := leafNames(t)
 	mk := "mk." + tn
-	vc.declareFun(mk, sorts, "Val")
+	inPrelude := vc.eng.Prelude.bySym[mk] != nil
+	if !inPrelude {
+		vc.declareFun(mk, sorts, "Val")
+	}
 	projs := make([]string, len(sorts))
 	for i, s := range sorts {
 		p := "pj." + tn + "." + fmt.Sprint(i)
 		if names[i] != "" {
 			p += "." + names[i]
 		}
-		vc.declareFun(p, []string{"Val"}, s)
+		if !inPrelude {
+			vc.declareFun(p, []string{"Val"}, s)
+		}
 		projs[i] = p
 	}
 	return mk, projs, sorts
@@ -721,6 +738,10 @@ func (vc *VC) makeInterface(t types.Type, v SV) SV {
 	term := app(mk, ls...)
 	if len(ls) == 0 {
 		term = mk
+	}
+	if vc.noFacts > 0 {
+		// inside a quantified specification: the prelude's boxing axioms apply, no ground facts
+		return Sc{"Val", term}
 	}
 	b := vc.define("box", "Val", term)
 	tag := vc.eng.tagOf(t)
@@ -744,8 +765,11 @@ func (vc *VC) unbox(t types.Type, v string, st *State, guard string) SV {
 	if len(ls) > 0 {
 		re = app(mk, ls...)
 	}
-	vc.assume("true", sImp(isT, sEq(v, re)))
 	sv := mkSV(t, ls)
+	if vc.noFacts > 0 {
+		return sv
+	}
+	vc.assume("true", sImp(isT, sEq(v, re)))
 	for _, f := range vc.typeFacts(t, sv, st) {
 		vc.assume(sAnd(guard, isT), f)
 	}
